@@ -201,11 +201,19 @@ def gen_history(r: random.Random, profile: str = "mix") -> Dict[str, Any]:
             if r.random() < 0.3:
                 ops.append({"k": "match", "m": m, "force": True})
         elif u < p_cancel + p_tick + p_toggle + p_hostile:
-            k = r.choice(["resubmit", "wrong_market", "ghost_cancel", "cancel_wrong_market"])
+            k = r.choice(["resubmit", "wrong_market", "ghost_cancel", "cancel_wrong_market", "strict_offgrid", "ghost_cancel"])
             m = r.randrange(n_markets)
-            ops.append({"k": k, "m": m, "a": r.randrange(n_agents), "side": r.choice("bs"),
-                        "px": p0s[m], "ref": r.choice(["live", "filled", "cancelled", "expired", "any"]),
-                        "nth": r.randrange(20)})
+            hop = {"k": k, "m": m, "a": r.randrange(n_agents), "side": r.choice("bs"),
+                   "px": p0s[m] + r.choice([0, 0, 1, -1, 2]) * ticks[m] + (r.choice([0.0, 0.3, 0.5]) * ticks[m] if k == "wrong_market" else 0.0),
+                   "ref": r.choice(["live", "filled", "cancelled", "expired", "any"]), "nth": r.randrange(20)}
+            if k in ("wrong_market", "ghost_cancel") and r.random() < 0.6:
+                hop["then"] = True  # carry on with the same object after the refusal
+                hop["cont"] = continuous and outage == 0
+                if k == "ghost_cancel":
+                    hop["vol"] = r.randint(1, 5)
+                    if r.random() < 0.5:
+                        hop["ttl"] = r.randint(1, 4)
+            ops.append(hop)
         else:
             add()
     ops.append({"k": "run", "m": 0, "v": True})
